@@ -16,6 +16,15 @@ NOTES = ("Every check = TLA+ specification under spec/ checked by TLC + conforma
          "known_findings.json lists genuine defects (known / fixed).")
 NOT_APPLICABLE = {}
 CHECKS = {
+    "C18": {
+        "level": "model_checking",
+        "technique": "TLA+ specs SvgPath.tla (path interpreter transition system, arc/shape/viewport geometry) and SvgRefs.tla (reference walk with active set) model-checked by TLC; every terminal state replayed through svg.Parse + Draw on a recording canvas",
+        "text": "TLC enumerates command sequences, arcs, shapes, viewports and reference graphs with the operations / geometry SVG requires, checking "
+                "CurIsLastEnd, StartsWithMove, NoSelfNesting, DepthBound and termination; the real parser and drawer must emit the same MoveTo/LineTo/"
+                "CubicTo/ClosePath/Rectangle sequence (all number syntaxes), curves lying on the named ellipses, the specified viewport transform, and "
+                "must terminate on every reference graph.",
+        "note": "Integer coordinates; curve accuracy checked at sample points only; no rotated ellipses; simulated (not exhaustive) beyond 2 commands.",
+    },
     "C19": {
         "level": "model_checking",
         "technique": "TLA+ specs CounterScopes.tla (declarative scopes vs stack algorithm) and CounterStyles.tla (representation generator as a transition system) model-checked by TLC; every terminal state replayed into html/boxes and css/counters",
